@@ -236,53 +236,101 @@ theorem unfold?_some_iff (defs : List (Def K)) (sel : String → Bool) (i : Inst
     · intro h; cases h
     · intro h; exact absurd h (hn _)
 
+theorem mapOK_cons_iff {defs : List (Def K)} {sel : String → Bool} {k off : Nat} {i : Instr K}
+    {rest out : List (Instr K)} {e : Entry} {m : List Entry} :
+    MapOK defs sel k off (i :: rest) out (e :: m) ↔
+      ∃ chunk out', out = chunk ++ out' ∧ EntryOK defs sel e k off i chunk ∧
+        MapOK defs sel (k + 1) (off + chunk.length) rest out' m := by
+  constructor
+  · intro h
+    cases h with
+    | keep hn hrest => exact ⟨[i], _, rfl, .unmodified hn, hrest⟩
+    | unfold hsel hm hinst hb hrest => exact ⟨_, _, rfl, .rewritten hsel hm hinst hb, hrest⟩
+  · rintro ⟨chunk, out', rfl, he, hrest⟩
+    cases he with
+    | unmodified hn => exact .keep hn hrest
+    | rewritten hsel hm hinst hb => exact .unfold hsel hm hinst hb hrest
+
 theorem checkMap_sound [DecidableEq K] (defs : List (Def K)) (sel : String → Bool) (m : List Entry) (k off : Nat)
     (src out : List (Instr K)) (h : checkMap defs sel m k off src out = true) :
     MapOK defs sel k off src out m := by
-  fun_induction checkMap defs sel m k off src out with
-  | case1 => exact .nil _ _
-  | case2 s idx m k off i rest o out ih =>
-    simp only [Bool.and_eq_true, beq_iff_eq, decide_eq_true_eq] at h
-    obtain ⟨⟨⟨⟨h1, h2⟩, h3⟩, h4⟩, h5⟩ := h
+  revert h
+  apply checkMap.induct (K := K)
+    (motive_1 := fun e k off i chunk => checkEntry defs sel e k off i chunk = true → EntryOK defs sel e k off i chunk)
+    (motive_2 := fun m k off src out => checkMap defs sel m k off src out = true → MapOK defs sel k off src out m)
+  · intro s idx k off i chunk h
+    simp only [checkEntry, Bool.and_eq_true, beq_iff_eq, decide_eq_true_eq] at h
+    obtain ⟨⟨⟨h1, h2⟩, h3⟩, h4⟩ := h
     subst h1; subst h2; subst h4
-    exact .keep ((notSelected_iff _ _ _).1 h3) (ih h5)
-  | case3 s name start stop nested m k off i rest out ih1 ih2 =>
-    simp only [Bool.and_eq_true, beq_iff_eq, decide_eq_true_eq] at h
-    obtain ⟨⟨⟨⟨h1, h2⟩, h3⟩, h4⟩, h5⟩ := h
-    subst h1; subst h2
-    split at h5
+    exact .unmodified ((notSelected_iff _ _ _).1 h3)
+  · intro s name start stop nested k off i chunk ih h
+    simp only [checkEntry, Bool.and_eq_true, beq_iff_eq] at h
+    obtain ⟨⟨⟨h1, h2⟩, h3⟩, h4⟩ := h
+    subst h1; subst h2; subst h3
+    split at h4
     · rename_i body nm hu
-      simp only [Bool.and_eq_true, beq_iff_eq] at h5
-      obtain ⟨⟨h6, h7⟩, h8⟩ := h5
-      subst h6
+      simp only [Bool.and_eq_true, beq_iff_eq] at h4
+      obtain ⟨h5, h6⟩ := h4
+      subst h5
       obtain ⟨g, d, body0, hi, hsel, hm, hinst, hb, hn⟩ := (unfold?_some_iff _ _ _ _ _).1 hu
       subst hi; subst hb; subst hn
-      have e1 : (out.take (stop - start)).length = stop - start := by
-        rw [List.length_take]; omega
-      have hout : out = out.take (stop - start) ++ out.drop (stop - start) := (List.take_append_drop _ _).symm
-      have hstop : stop = start + (out.take (stop - start)).length := by omega
-      have hb := ih1 _ h7
-      have hr := ih2 h8
-      have key := MapOK.unfold (k := s) (off := start) hsel hm hinst hb
-        (by rw [← hstop]; exact hr)
-      rw [← hstop, ← hout] at key
-      exact key
-    · cases h5
-  | case4 => simp at h
+      exact .rewritten hsel hm hinst (ih _ h6)
+    · cases h4
+  · intro k off _
+    exact .nil _ _
+  · intro e m k off i rest out ih1 ih2 h
+    simp only [checkMap, Bool.and_eq_true, decide_eq_true_eq] at h
+    obtain ⟨⟨⟨h1, h2⟩, h3⟩, h4⟩ := h
+    have hl : (out.take (e.hi - e.lo)).length = e.hi - e.lo := by rw [List.length_take]; omega
+    refine mapOK_cons_iff.2 ⟨out.take (e.hi - e.lo), out.drop (e.hi - e.lo), (List.take_append_drop _ _).symm,
+      ih1 h3, ?_⟩
+    rw [hl]; exact ih2 h4
+  · intro t k off src out h1 h2 h
+    exfalso
+    cases t with
+    | nil =>
+      cases src with
+      | nil =>
+        cases out with
+        | nil => exact h1 rfl rfl rfl
+        | cons => simp [checkMap] at h
+      | cons => simp [checkMap] at h
+    | cons e m =>
+      cases src with
+      | nil => simp [checkMap] at h
+      | cons i rest => exact h2 e m i rest rfl rfl
 
+theorem checkEntry_complete [DecidableEq K] (defs : List (Def K)) (sel : String → Bool)
+    (hrec : ∀ body b nm, MapOK defs sel 0 0 body b nm → checkMap defs sel nm 0 0 body b = true)
+    {e : Entry} {k off : Nat} {i : Instr K} {chunk : List (Instr K)} (h : EntryOK defs sel e k off i chunk) :
+    checkEntry defs sel e k off i chunk = true := by
+  cases h with
+  | unmodified hn => simp [checkEntry, (notSelected_iff _ _ _).2 hn]
+  | @rewritten _ _ g d body b nm hsel hm hinst hb =>
+    have hu := (unfold?_some_iff defs sel (.gate g) (body.map Instr.gate) d.name).2
+      ⟨g, d, body, rfl, hsel, hm, hinst, rfl, rfl⟩
+    simp [checkEntry, hu, hrec _ _ _ hb]
+
+theorem entryOK_width {defs : List (Def K)} {sel : String → Bool} {e : Entry} {k off : Nat} {i : Instr K}
+    {chunk : List (Instr K)} (h : EntryOK defs sel e k off i chunk) :
+    e.lo ≤ e.hi ∧ e.hi - e.lo = chunk.length := by
+  cases h with
+  | unmodified _ => simp [Entry.lo, Entry.hi]
+  | rewritten _ _ _ _ => simp [Entry.lo, Entry.hi]
 
 theorem checkMap_complete [DecidableEq K] (defs : List (Def K)) (sel : String → Bool) (m : List Entry) (k off : Nat)
     (src out : List (Instr K)) (h : MapOK defs sel k off src out m) :
     checkMap defs sel m k off src out = true := by
   induction h with
   | nil => simp [checkMap]
-  | keep hn _ ih =>
-    simp [checkMap, (notSelected_iff _ _ _).2 hn, ih]
-  | @unfold k off g d body b nm rest out m hsel hm hinst _ _ ih1 ih2 =>
+  | @keep k off i rest out m hn _ ih =>
+    have he : EntryOK defs sel (.unmodified k off) k off i [i] := .unmodified hn
+    simp [checkMap, Entry.lo, Entry.hi, checkEntry, (notSelected_iff _ _ _).2 hn, ih]
+  | @unfold k off g d body b nm rest out m hsel hm hinst hb _ ih1 ih2 =>
     have hu := (unfold?_some_iff defs sel (.gate g) (body.map Instr.gate) d.name).2
       ⟨g, d, body, rfl, hsel, hm, hinst, rfl, rfl⟩
     have e : off + b.length - off = b.length := by omega
-    simp [checkMap, hu, e, ih1, ih2]
+    simp [checkMap, Entry.lo, Entry.hi, checkEntry, hu, e, ih1, ih2]
 
 theorem checkMap_iff [DecidableEq K] (defs : List (Def K)) (sel : String → Bool) (m : List Entry) (k off : Nat)
     (src out : List (Instr K)) :
